@@ -41,13 +41,16 @@ struct RunStats
 
 struct SeqOutcome
 {
-    Violation v;
+    Violation v;     // the violation reported by this run (see `focus`)
+    Violation other; // first violation of another property that was tolerated or cut the run short
     RunStats  st;
 };
 
 // Runs the plan against real containers.  `trace` (optional) receives a human
-// readable step log for replays.
-SeqOutcome run_seq(const SeqPlan& plan, std::string* trace = nullptr);
+// readable step log for replays.  With a `focus` property only violations of that
+// property are reported; others are counted and, where the model can adopt the
+// observed state, the run continues so the focus property's checks are still reached.
+SeqOutcome run_seq(const SeqPlan& plan, std::string* trace = nullptr, const std::string& focus = "");
 
 // Plan generation -------------------------------------------------------------
 struct GenProfile
